@@ -95,6 +95,13 @@ def gen_cases(tier, seed):
                 for alpha in ("1/L", "1/2L"):
                     for acc in (False, True):
                         cases.append(dict(kind="gm", A=A, g=g, x0=x0, alpha=alpha, acc=acc, tier=tier))
+    # the caller's x / u as non-contiguous views
+    for A in ("real32", "cplx32"):
+        for g in (None, "l1"):
+            for acc in (False, True):
+                cases.append(dict(kind="gm", A=A, g=g, x0="generic", alpha="1/L", acc=acc, tier=tier, xlayout="strided"))
+            for gam in ("none", "dual"):
+                cases.append(dict(kind="pdhg", A=A, g=g, start="generic", steps="diag", gamma=gam, tier=tier, xlayout="strided"))
     # callbacks that return arrays they do not own: gradf(x) = x (its own argument, f = 1/2||x||^2) and gradf(x) = c (one
     # persistent array, f = <c, x> on a box).  A solver that scales the callback's result in place corrupts its iterate
     # or the caller's c.
@@ -218,7 +225,12 @@ def run_gm(case, seed):
     Ad = A.real if real else A
     yd = y.real if real else y
     x0 = np.zeros(n, dt) if case["x0"] == "zero" else (np.cos(np.arange(n) + 1.0) * 0.8 + (0 if real else 0.3j)).astype(dt)
-    x = x0.copy()
+    if case.get("xlayout"):
+        buf = np.zeros(2 * n, dt)
+        x = buf[1::2]
+        x[:] = x0
+    else:
+        x = x0.copy()
     F = lambda v: convex.primal(A, y, kind, par, None, 0.0, None, np.asarray(v, complex), feas_tol=1e-12)  # noqa
     gradf = lambda v: Ad.conj().T @ (Ad @ v - yd)  # noqa
     alg = sp.alg.GradientMethod(gradf, x, alpha, proxg=None if kind is None else make_prox(kind, par, [n]),
@@ -286,7 +298,13 @@ def run_pdhg(case, seed):
     else:
         x0 = (xs.real if real else xs).astype(dt)
         u0 = (us.real if real else us).astype(dt)
-    x, u = x0.copy(), u0.copy()
+    if case.get("xlayout"):
+        bx, bu = np.zeros((n, 2), dt), np.zeros(2 * m, dt)
+        x, u = bx[:, 0], bu[::2]
+        x[:] = x0
+        u[:] = u0
+    else:
+        x, u = x0.copy(), u0.copy()
     gp = par if (case["gamma"] == "primal") else 0
     gd = 1.0 if case["gamma"] == "dual" else 0
     tau_arg = np.array(tau, dtype=float) if np.ndim(tau) else float(tau)
